@@ -189,28 +189,11 @@ fn judge(kb: &Kb, st: &Store, goal: &GoalQ, cfg: &Cfg, ctx: &mut Ctx) -> Verdict
     Verdict::Pass
 }
 
-/// known findings of this tree (see KNOWN_FINDINGS.txt) and their generator exclusions
-fn exclusions(cfg: &mut Cfg, ctx: &mut Ctx) {
-    if ctx.no_exclusions {
-        return;
-    }
-    for f in crate::findings::load(&verif_root().join("KNOWN_FINDINGS.txt")) {
-        if f.kind != "known" || f.property != "C09" {
-            continue;
-        }
-        if f.id == "C09-F2" && cfg.max_solutions > 1 {
-            cfg.max_solutions = 1;
-            ctx.exclude("F2-max_solutions>1-rewritten-to-1");
-        }
-    }
-}
-
 pub fn run(s: &mut Src, ctx: &mut Ctx) -> Verdict {
-    let (kb, st, goal, mut cfg) = gen_case(s, None);
+    let (kb, st, goal, cfg) = gen_case(s, None);
     if probe_only() {
         return Verdict::Pass;
     }
-    exclusions(&mut cfg, ctx);
     ctx.describe(|| describe(&kb, &st, &goal, &cfg));
     judge(&kb, &st, &goal, &cfg, ctx)
 }
@@ -222,7 +205,6 @@ pub fn run_complete(s: &mut Src, ctx: &mut Ctx) -> Verdict {
     if probe_only() {
         return Verdict::Pass;
     }
-    exclusions(&mut cfg, ctx);
     ctx.describe(|| describe(&kb, &st, &goal, &cfg));
     judge(&kb, &st, &goal, &cfg, ctx)
 }
